@@ -97,6 +97,14 @@ def run(repo, rep):
     rule_cpu_pass_move(repo, rep)
     rep.clause("C13-aj", "chain merges (pre -> mid -> post into mid) go ahead only if each tensor in between has exactly one consumer")
     rule_chain_merge_consumers(repo, rep)
+    rep.clause("C13-aq", "the scale check rejects a tensor if any of its scales is infinite (quantifier kept under negation)")
+    rep.clause("C13-ar", "the reader records every buffer of the file (index alignment of tensors and buffers)")
+    rep.clause("C13-as", "debug database pairs are read member by member as they are stored")
+    rule_round8(repo, rep)
+    rep.clause("C13-at", "the driver payload header fits its 32-bit words for every stream length below 2^24 (struct.pack would raise) [rule shared with C17-a]")
+    from . import c17 as _c17
+
+    rep.run_borrowed(_c17, {"C17-a": "C13-at"}, repo)
     rep.clause("C13-ap", "tensors of accelerated operators have complete quantisation records: a scale without a zero point is rejected by the semantic check")
     rule_quant_record_complete(repo, rep)
     rep.clause("C13-ao", "table generators evaluate their math function under a handler for OverflowError (entries beyond the float range saturate)")
@@ -2379,3 +2387,48 @@ def rule_quant_record_complete(repo, rep):
         t = _re.sub(rf"\b{k}\b", v, t)
     rep.check("quantization is None" in t and "zero_point is None" in t, "C13-ap", site, "a quantisation record without a zero point is rejected like an absent record",
               f"`{t[:100]}`: a tensor with a scale but no zero point passes the check; get_ofm_quantization / constraint_weights_limit then evaluate int(None) (PAD with such an OFM, CONV_2D with such weights: TypeError)")
+
+
+def rule_round8(repo, rep):
+    """(aq) the scale check rejects a tensor if *any* of its (per-channel) scales is not finite: `np.isinf(s).any()` or an equivalent with
+    the quantifier kept (`not np.isfinite(s).all()`); `not np.isfinite(s).any()` only fires when no entry is finite, and a mixed vector
+    reaches quantise_scale(inf). (ar) the reader records one entry per buffer of the file, on every path of the loop (tensors refer to
+    buffers by index). (as) the debug database stores (optimised uid, source uid) pairs; every read takes the member it names."""
+    from ..cfg import cfg_of as _cfg
+
+    sem = repo.mod("tflite_model_semantic")
+    f = sem.func("TFLiteSemantic.constraint_tens_quant_scale")
+    txt = " ".join(str(norm(i.test)) for i in ast.walk(f) if isinstance(i, ast.If))
+    ok = ("np.isinf(" in txt and ").any()" in txt and "not np.isinf" not in txt) or "not np.isfinite(" in txt and ").all()" in txt or "(~np.isfinite(" in txt and ").any()" in txt
+    bad = "not np.isfinite(" in txt and ".any()" in txt and ".all()" not in txt
+    rep.check(ok and not bad, "C13-aq", "ethosu/vela/tflite_model_semantic.py:TFLiteSemantic.constraint_tens_quant_scale", "a tensor is rejected if any of its scales is infinite",
+              f"`{txt[:120]}`: the test fires only if no scale is finite: CONV_2D with per-channel scales of which some are inf passes and aborts with OverflowError in quantise_scale")
+    tr = repo.mod("tflite_reader")
+    g = tr.func("TFLiteGraph.__init__")
+    loops = [l for l in ast.walk(g) if isinstance(l, ast.For) and "BuffersLength" in str(norm(l.iter))]
+    if len(loops) != 1:
+        raise AnalysisError("TFLiteGraph.__init__: buffer loop not found")
+    c = _cfg(ast.Module(body=loops[0].body, type_ignores=[]))
+    app = c.nodes_where(lambda n_: n_.stmt is not None and n_.kind != "test" and not isinstance(n_.stmt, (ast.If, ast.For, ast.While)) and "self.buffers.append(" in str(norm(n_.stmt)))
+    rep.check(bool(app) and not c.path_avoiding(0, 1, app), "C13-ar", "ethosu/vela/tflite_reader.py:TFLiteGraph.__init__", "every buffer of the file gets an entry in self.buffers (all paths of the loop body append)",
+              "a path through the loop body records nothing: every later buffer index shifts down by one; parse_tensor raises ValueError / IndexError (a file with a zero-length buffer, as TF >= 2.11 writes for element-less constants)")
+    dd = repo.mod("debug_database")
+    stores = [a for q, fn in dd.functions.items() for a in ast.walk(fn) if isinstance(a, ast.Assign) and len(a.targets) == 1 and isinstance(a.targets[0], ast.Subscript) and str(norm(a.targets[0].value)).endswith("_optimisedUID") and isinstance(a.value, ast.Tuple)]
+    if not stores:
+        raise AnalysisError("debug_database: no store into _optimisedUID")
+    layouts = {tuple(str(norm(e)) for e in a.value.elts) for a in stores}
+    if len(layouts) != 1:
+        raise AnalysisError(f"debug_database: _optimisedUID layouts {layouts}")
+    layout = layouts.pop()
+    n = 0
+    for q, fn in dd.functions.items():
+        for a in ast.walk(fn):
+            if isinstance(a, ast.Assign) and len(a.targets) == 1 and isinstance(a.targets[0], ast.Name) and isinstance(a.value, ast.Subscript) and isinstance(a.value.value, ast.Subscript) \
+                    and str(norm(a.value.value.value)).endswith("_optimisedUID") and isinstance(a.value.slice, ast.Constant):
+                nm = a.targets[0].id
+                if nm in layout:
+                    n += 1
+                    rep.check(layout.index(nm) == a.value.slice.value, "C13-as", f"ethosu/vela/debug_database.py:{q}", f"`{str(norm(a))}` reads member {layout.index(nm)} of the stored pair {layout}",
+                              f"`{nm}` is read from position {a.value.slice.value}, the pair is stored as {layout}: an optimised-table id is recorded as a source id; print_performance (--verbose-performance) raises KeyError")
+    if n < 1:
+        raise AnalysisError("debug_database: no named read of an _optimisedUID member")
